@@ -1158,6 +1158,9 @@ func (o OnConflict) Children() []Node {
 			children = append(children, &update)
 		}
 	}
+	if o.Action.Where != nil {
+		children = append(children, o.Action.Where)
+	}
 	return children
 }
 
